@@ -85,6 +85,23 @@ This is to be used in custom allocators."#,
         ));
     }
 
+    // Same for the alignment: offsets are computed from the recorded alignment, a different real
+    // alignment would lead to misaligned accesses.
+    let type_align_assertions = definition
+        .variants()
+        .flat_map(|variant| variant.data())
+        .map(|d| {
+            let details = definition[d].details();
+            (details.type_name(), details.type_align())
+        })
+        .collect::<BTreeSet<_>>();
+    for (type_name, align) in type_align_assertions {
+        scope.raw(format!(
+            "const_assert_eq!(std::mem::align_of::<{}>(), {});",
+            type_name, align
+        ));
+    }
+
     scope.to_string()
 }
 
